@@ -66,10 +66,10 @@ class Scenario:
     pass
 
 
-def patch_obj_scenario(vc, *, max_ops=2):
+def patch_obj_scenario(vc, *, op_counts=(0, 2), silent=False):
     """
     Runs the real patch_obj on: a resource with/without the status subresource; a patch whose non-status
-    part is empty or not, whose status is absent / None / {} / non-empty, with no or two transformation
+    part is empty or not, whose status is absent / None / non-empty, with no or two transformation
     fns; against an API that answers every request with a fresh object, 404, 422 or another error.
     """
     s = Scenario()
@@ -85,9 +85,9 @@ def patch_obj_scenario(vc, *, max_ops=2):
     if vc.nondet(2, 'non-status part of the patch: empty / non-empty') == 1:
         s.content['metadata'] = {'annotations': {'a': vc.str('patch.ann')}}
         s.content['spec'] = {'x': vc.str('patch.spec.x')}
-    sk = vc.nondet(4, 'patch status: absent / None / {} / non-empty')
+    sk = vc.nondet(3, 'patch status: absent / None (delete it) / non-empty')
     if sk:
-        s.content['status'] = [None, {}, {'y': vc.str('patch.status.y')}][sk - 1]
+        s.content['status'] = [None, {'y': vc.str('patch.status.y')}][sk - 1]
     s.fns = [Opaque('fn1'), Opaque('fn2')] if vc.nondet(2, 'transformation fns: none / two') == 1 else []
     # precondition (call sites: processing.process_resource_event, daemons._daemon/_timer build
     # Patch(remaining, body=body); peering/admission pass fns-less patches without a body):
@@ -105,7 +105,7 @@ def patch_obj_scenario(vc, *, max_ops=2):
                 return []
             if base is None:
                 raise ValueError('Cannot build a JSON-patch without the original body as a reference.')
-            n = vc.nondet(max_ops + 1, 'number of ops')
+            n = op_counts[vc.nondet(len(op_counts), 'number of ops')]
             ops = [patches.JSONPatchItem(op='add', path=vc.str('op.path'), value=Opaque(f'op{i}.value')) for i in range(n)]
             s.calls.append(Opaque('as_json_patch', receiver=self, base=base, ops=ops, items=list(ops), seq=len(vc.trace)))
             vc.emit('as_json_patch', self, base, ops)
@@ -136,7 +136,6 @@ def patch_obj_scenario(vc, *, max_ops=2):
     vc.used('api.patch', 'N2')
     ld = vc.load('kopf._cogs.clients.patching', 'patch_obj', stubs={'api.patch': api_patch, 'patches.Patch': ContractPatch})
     kw = dict(settings=s.settings, resource=s.resource, namespace=NS, name=NAME, patch=s.patch, logger=s.logger)
-    silent = vc.bool('silent')
     s.raised, s.result = None, None
     try:
         s.result = vc.drive(ld.fn(silent=silent, **kw))
@@ -301,7 +300,7 @@ def A4(vc):
     as a precondition -- metadata.uid of the body, or a resourceVersion of the body or of the response
     to an earlier identity-bound request. (Requests address objects by namespace/name only.)
     """
-    s = patch_obj_scenario(vc, max_ops=1)
+    s = patch_obj_scenario(vc, op_counts=(0, 1), silent=vc.nondet(2, 'silent?') == 1)
     vc.canary('canary.only_json_patches', not s.merges)
     if s.original is None:
         return ('no-original', len(s.reqs))
